@@ -280,6 +280,16 @@ func methodType(t reflect.Type, name string) (reflect.Type, bool, bool) {
 	return nil, false, false
 }
 
+// keyFits tells whether a value of (static) type k can be a key of the map type m.
+// Values of unknown type are checked at run time.
+func keyFits(m, k reflect.Type) bool {
+	m = dereference(m)
+	if m == nil || m.Kind() != reflect.Map || k == nil || k.Kind() == reflect.Interface {
+		return true
+	}
+	return k.AssignableTo(m.Key())
+}
+
 func indexType(ntype reflect.Type) (reflect.Type, bool) {
 	ntype = dereference(ntype)
 	if ntype == nil {
